@@ -199,6 +199,8 @@ void call_pubsub_cb(m_mod_t *mod, m_queue_t *evts) {
     }
     
     M_MEM_LOCK(mod, {
+        /* Restore the outer module when a callback is run from inside another module's callback */
+        m_mod_t *outer_mod = mod->ctx->curr_mod;
         mod->ctx->curr_mod = mod;
         
         /* If module is using some different receive function, honor it. */
@@ -218,7 +220,7 @@ void call_pubsub_cb(m_mod_t *mod, m_queue_t *evts) {
         
         fetch_ms(&mod->stats.last_seen, NULL);
         
-        mod->ctx->curr_mod = NULL;
+        mod->ctx->curr_mod = outer_mod;
     });
 end:
     /* Destroy events */
